@@ -29,7 +29,8 @@ def seeded(rnd=None):
         if r.get("check_detected"):
             c = "yes, with failing input" if r.get("check_with_failing_input") else "yes, no-failing-input-found"
         else:
-            c = "**no**"
+            others = [k for k, v in sorted(r.get("other_checks", {}).items()) if v.get("check_detected")]
+            c = "**no** by its own check" + ("; yes, with failing input, by " + ", ".join(others) if others else "")
         by = []
         lines = r.get("check_output", []) if r.get("check_detected") else []
         if any("UNDISCHARGED" in l for l in lines):
